@@ -217,3 +217,52 @@ M('c14-async-normalized-flush-when-item-empty', 'C14', 'R11', A,          # "kee
   _FLUSH, "            if chunk_len >= chunk_size or not item:\n                self._consumed += chunk_len\n", also=['C13'])
 M('c14-async-lookahead-one-byte-short', 'C14', 'R11', A,
   "fragment = self._buffer[offset:] + chunk[:delimiter_len_1]", "fragment = self._buffer[offset:] + chunk[: delimiter_len_1 - 1]", also=['C13'])
+
+# ------------------------------------------------------------------ R7 (extended): a coroutine of the asynchronous reader that serves a capped read
+# straight from the buffer on the strength of a failed `find(delimiter, lo, hi)` must keep len(delimiter) - 1 bytes of margin (shared with C13 R5)
+_ASYNC_READ_UNTIL = ("        result = await self._read_from(\n            self._iter_delimited(delimiter, size_hint=size or 0), size\n        )\n\n"
+                     "        if consume_delimiter:\n            await self._consume_delimiter(delimiter)\n")
+
+
+def _fast_path(cond):
+    return ("        buffer_pos = self._buffer_pos\n        if (\n" + cond + "\n        ):\n            self._buffer_pos += size\n"
+            "            result = self._buffer[buffer_pos : self._buffer_pos]\n        else:\n"
+            "            result = await self._read_from(\n                self._iter_delimited(delimiter, size_hint=size or 0), size\n            )\n\n"
+            "        if consume_delimiter:\n            await self._consume_delimiter(delimiter)\n")
+
+
+M('c14-async-read-until-fast-path-end-bounded-find', 'C14', 'R7', A,          # seeded s5-c14-2
+  _ASYNC_READ_UNTIL, _fast_path("            size\n            and 0 < size <= self._buffer_len - buffer_pos\n"
+                                "            and self._buffer.find(delimiter, buffer_pos, buffer_pos + size) < 0"), also=['C13'])
+M('c14-async-read-until-fast-path-margin-on-find-only', 'C14', 'R7', A,          # the window may still end at the end of the buffered data
+  _ASYNC_READ_UNTIL, _fast_path("            size\n            and 0 < size <= self._buffer_len - buffer_pos\n"
+                                "            and self._buffer.find(delimiter, buffer_pos, buffer_pos + size + len(delimiter) - 1) < 0"), also=['C13'])
+M('c14-async-read-until-fast-path-margin-on-size-only', 'C14', 'R7', A,
+  _ASYNC_READ_UNTIL, _fast_path("            size\n            and 0 < size <= self._buffer_len - buffer_pos - (len(delimiter) - 1)\n"
+                                "            and self._buffer.find(delimiter, buffer_pos, buffer_pos + size) < 0"), also=['C13'])
+M('c14-async-read-until-fast-path-only-when-consuming', 'C14', 'R7', A,          # the torn delimiter then fails the consume check
+  _ASYNC_READ_UNTIL, _fast_path("            size\n            and consume_delimiter\n            and 0 < size <= self._buffer_len - buffer_pos\n"
+                                "            and self._buffer.find(delimiter, buffer_pos, buffer_pos + size) < 0"), also=['C13'])
+
+# ------------------------------------------------------------------ R12 size cap of the synchronous reader (per-method contracts)
+_READLINE = ("        size = self._normalize_size(size)\n\n        result = self.read_until(b'\\n', size)\n        if len(result) < size:\n"
+             "            return result + self.read(1)\n        return result\n")
+M2('c14-sync-readline-through-include-delimiter', 'C14', 'R12', [          # seeded s5-c14-1
+    {'file': S, 'old': "        self, delimiter: bytes, size: int = -1, consume_delimiter: bool = False\n    ) -> bytes:\n        # PERF(vytas): In Cython, bind types:\n"
+                       "        #   cdef Py_ssize_t read_size\n        #   cdef result\n\n        read_size = self._normalize_size(size)\n",
+     'new': "        self, delimiter: bytes, size: int = -1, consume_delimiter: bool = False, include_delimiter: bool = False\n    ) -> bytes:\n"
+            "        read_size = self._normalize_size(size)\n        if include_delimiter:\n            data = self.read_until(delimiter, read_size)\n"
+            "            if self.peek(len(delimiter)) == delimiter:\n                return data + self.read(len(delimiter))\n"
+            "            if consume_delimiter:\n                raise DelimiterError('expected delimiter missing')\n            return data\n"},
+    {'file': S, 'old': _READLINE, 'new': "        return self.read_until(b'\\n', size, include_delimiter=True)\n"}])
+M('c14-sync-readline-newline-beyond-cap', 'C14', 'R12', S,
+  "        if len(result) < size:\n            return result + self.read(1)\n", "        if len(result) <= size:\n            return result + self.read(1)\n")
+M('c14-sync-readline-newline-whenever-next', 'C14', 'R12', S,
+  "        if len(result) < size:\n            return result + self.read(1)\n", "        if self.peek(1) == b'\\n':\n            return result + self.read(1)\n")
+M('c14-sync-readline-compares-raw-size', 'C14', 'R12', S,
+  _READLINE, "        result = self.read_until(b'\\n', size)\n        if size < 0 or len(result) <= size:\n            return result + self.read(1)\n        return result\n")
+M('c14-sync-read-ignores-size', 'C14', 'R12', S,
+  "        return self._read(self._normalize_size(size))\n", "        return self._read(self._normalize_size(None))\n")
+M('c14-sync-read-until-returns-byte-behind-cap', 'C14', 'R12', S,
+  "            return self._read_until(delimiter, read_size, consume_delimiter)\n\n",
+  "            return self._read_until(delimiter, read_size, consume_delimiter) + self.peek(1)\n\n")
